@@ -240,7 +240,7 @@ class DNSOutgoing:
         """Writes a UTF-8 string of a given length to the packet"""
         utfstr = s.encode('utf-8')
         length = len(utfstr)
-        if length > 64:
+        if length > 63:
             raise NamePartTooLongException
         self._write_byte(length)
         self.write_string(utfstr)
